@@ -11,6 +11,13 @@ is computed from the history: whether the flow-mod is carried out or refused (BA
 OVERLAP, ALL_TABLES_FULL) x whether the buffer_id it carries is absent, never issued, already used or valid.
 Two further families enumerate histories over sub-alphabets: the flow family (all flow-mods + buffers + read-backs)
 and, one request deeper, the buffer family (see `histories`).
+
+Port-mods are described declaratively as well (port_no x hw_addr kind x config x mask, see `pm_req`): the expected answer
+(nothing | BAD_PORT | BAD_HW_ADDR) and the port configuration afterwards are computed by Model.port_step; the configuration
+is read back from every features reply (per port: config bits, link state as last announced in a port-status, the rest
+of the description against a pristine twin switch) and through its effects on port counters (packet-out to a port /
+FLOOD / ALL).  The port-mod lattice (`pm_lattice`) is run in three read-back frames, a port family in all sequences
+(see `histories`).  Histories of <=2 requests and the long histories are also run with boundary xids (0, 0xffffffff...).
 """
 import itertools, struct
 from mc.engine import pmap, split
@@ -26,15 +33,69 @@ FM_MATCH = {"in1": W.match_fields(in_port=1), "in2": W.match_fields(in_port=2), 
             "all": W.match()}
 BAD_BUFFER = 77            # never handed out: the switch has 4 buffers
 CAPACITY = 2               # flow table capacity of the switch under test (see _stack)
+PORTS = (1, 2, 3, 4)       # ports of the switch under test (see _stack)
+EDGE_XIDS = (0, 0xffffffff, 0x80000000, 0x7fffffff, 1)       # boundary transaction ids (cycled; repeats occur)
+
+PC_BITS = (("PORT_DOWN", W.OFPPC_PORT_DOWN), ("NO_STP", W.OFPPC_NO_STP), ("NO_RECV", W.OFPPC_NO_RECV),
+           ("NO_RECV_STP", W.OFPPC_NO_RECV_STP), ("NO_FLOOD", W.OFPPC_NO_FLOOD), ("NO_FWD", W.OFPPC_NO_FWD),
+           ("NO_PACKET_IN", W.OFPPC_NO_PACKET_IN))
+PC_DEFINED = 0x7f
+# bits a port-mod must carry out; NO_STP (the switch does not do 802.1D) and undefined bits are "soft": OpenFlow 1.0 does not
+# say what a switch without the feature does with them, so their value is not judged after a port-mod named them
+PC_HARD = PC_DEFINED & ~W.OFPPC_NO_STP
+HW_KINDS = ("own", "zero", "bcast", "other", "lowbit", "highbit")
+
+
+def hw_bytes (port, kind):
+  """hw_addr field of a port-mod for `port`: the port's own address or a boundary value that is not the port's address."""
+  own = MAC1(1, port)
+  if kind == "own": return own
+  if kind == "zero": return b"\0" * 6
+  if kind == "bcast": return b"\xff" * 6
+  if kind == "other": return MAC1(1, port % 4 + 1) if port in PORTS else MAC1(1, 1)      # another port of the same switch
+  if kind == "lowbit": return own[:5] + bytes([own[5] ^ 1])
+  if kind == "highbit": return bytes([own[0] ^ 0x80]) + own[1:]
+  raise KeyError(kind)
+
+
+def pm_name (port, hw, config, mask): return "pm-%d-%s-%x-%x" % (port, hw, config, mask)
+
+
+def pm_req (port, hw, config, mask):
+  """A port-mod: port_no x hw_addr kind x config x mask (advertise 0).  The answer is worked out by Model.port_step."""
+  return (lambda x: W.port_mod(x, port, hw_bytes(port, hw), config, mask)), ("portmod", port, hw, config, mask)
+
+
+def pm_parse (name):
+  _, port, hw, c, m = name.split("-")
+  return pm_req(int(port), hw, int(c, 16), int(m, 16))
+
+
+class Reqs (dict):
+  """name -> (builder, expectation); names of the port-mod lattice ("pm-<port>-<hw kind>-<config>-<mask>") are self-describing."""
+  def __missing__ (self, name):
+    if not name.startswith("pm-"): raise KeyError(name)
+    v = self[name] = pm_parse(name)
+    return v
+
+
+def keyname (n):
+  """Request class used in violation keys: the request name, for the port-mod lattice its (port, hw_addr) class."""
+  if n.startswith("pm-"):
+    _, port, hw, c, m = n.split("-")
+    return "port-mod[port-%s,hw-%s]" % ("present" if int(port) in PORTS else "absent", hw)
+  return KEYCLASS.get(n, n)
+
+KEYCLASS = {"port-mod-2-zero-hw": "port-mod[port-present,hw-zero]", "port-mod-2-other-hw": "port-mod[port-present,hw-other]"}
 
 
 def flow_req (cmd, key, out=None, flags=0, buf=None):
   """A flow-mod: command x match (in1/in2/in3/all) x one output action (or none) x flags x buffer_id kind
-  (None = no buffer, 'bad' = an id the switch never hands out, 'last' = the id of the most recent packet-in).
+  (None = no buffer, 'bad' = an id the switch never hands out, 'zero' = id 0, 'last' = the id of the most recent packet-in).
   Returns (builder, expectation descriptor); the answer is worked out by Model.flow_step."""
   acts = W.a_output(out) if out is not None else b""
   def build (x, b=1):
-    bid = W.NO_BUFFER if buf is None else (BAD_BUFFER if buf == "bad" else b)
+    bid = W.NO_BUFFER if buf is None else (BAD_BUFFER if buf == "bad" else 0 if buf == "zero" else b)
     return W.flow_mod(x, FM_MATCH[key], cmd, acts, flags=flags, buffer_id=bid)
   return build, ("flow", cmd, key, out, flags, buf)
 
@@ -96,18 +157,35 @@ def requests ():
   a(("flow-modify-strict-last-buffer",) + flow_req(W.OFPFC_MODIFY_STRICT, "in1", 4, buf="last"))
   a(("flow-emerg-bad-buffer",) + flow_req(W.OFPFC_ADD, "in1", 2, flags=W.OFPFF_EMERG, buf="bad"))
   a(("flow-bad-command-bad-buffer",) + flow_req(9, "in1", 2, buf="bad"))
-  a(("port-mod", lambda x: W.port_mod(x, 1, MAC1(1, 1), W.OFPPC_NO_FLOOD, W.OFPPC_NO_FLOOD), ("none",)))
+  a(("port-mod",) + pm_req(1, "own", W.OFPPC_NO_FLOOD, W.OFPPC_NO_FLOOD))
   a(("port-mod-absent", lambda x: W.port_mod(x, 99, MAC1(1, 1), 0, 0), ("error", W.OFPET_PORT_MOD_FAILED, W.OFPPMFC_BAD_PORT)))
   a(("port-mod-bad-hw", lambda x: W.port_mod(x, 1, b"\x02\xaa\xaa\xaa\xaa\xaa", 0, 0), ("error", W.OFPET_PORT_MOD_FAILED, W.OFPPMFC_BAD_HW_ADDR)))
+  # the port-mods of the port family (see PORT_FAMILY): set / clear the bits whose effect is visible in port counters and
+  # table counters, on the ports the packet-outs use; refused ones that name a boundary hw_addr
+  for port, bits in ((2, ("PORT_DOWN", "NO_FWD", "NO_FLOOD")), (1, ("NO_RECV", "PORT_DOWN"))):
+    for bn in bits:
+      bit = dict(PC_BITS)[bn]
+      a(("port-mod-%d-set-%s" % (port, bn),) + pm_req(port, "own", bit, bit))
+      a(("port-mod-%d-clear-%s" % (port, bn),) + pm_req(port, "own", 0, bit))
+  a(("port-mod-1-clear-all",) + pm_req(1, "own", 0, PC_DEFINED))
+  a(("port-mod-2-zero-hw",) + pm_req(2, "zero", W.OFPPC_NO_FWD, W.OFPPC_NO_FWD))
+  a(("port-mod-2-other-hw",) + pm_req(2, "other", W.OFPPC_PORT_DOWN, W.OFPPC_PORT_DOWN))
   a(("packet-out", lambda x: W.packet_out(x, W.a_output(2), FRAME, in_port=1), ("none",)))
   a(("packet-out-table-1", lambda x: W.packet_out(x, W.a_output(W.OFPP_TABLE), FRAME, in_port=1), ("none",)))
   a(("packet-out-table-3", lambda x: W.packet_out(x, W.a_output(W.OFPP_TABLE), FRAME, in_port=3), ("none",)))
-  a(("port-mod-no-packet-in-3", lambda x: W.port_mod(x, 3, MAC1(1, 3), W.OFPPC_NO_PACKET_IN, W.OFPPC_NO_PACKET_IN), ("none",)))
+  a(("port-mod-no-packet-in-3",) + pm_req(3, "own", W.OFPPC_NO_PACKET_IN, W.OFPPC_NO_PACKET_IN))
+  # virtual output ports that fan out (in_port NONE: every port is a candidate): FLOOD leaves out NO_FLOOD ports
+  a(("packet-out-flood", lambda x: W.packet_out(x, W.a_output(W.OFPP_FLOOD), FRAME, in_port=W.OFPP_NONE), ("none",)))
+  a(("packet-out-all", lambda x: W.packet_out(x, W.a_output(W.OFPP_ALL), FRAME, in_port=W.OFPP_NONE), ("none",)))
   a(("packet-out-controller", lambda x: W.packet_out(x, W.a_output(W.OFPP_CONTROLLER), FRAME, in_port=1), ("none",)))
   a(("packet-out-bad-buffer", lambda x: W.packet_out(x, W.a_output(2), b"", buffer_id=77, in_port=1), ("error", W.OFPET_BAD_REQUEST, W.OFPBRC_BUFFER_UNKNOWN)))
   # names the buffer id of the most recent packet-in (1 if none was seen): fine once, "already used" afterwards, "unknown"
   # if the switch never handed that id out
   a(("packet-out-last-buffer", lambda x, b=1: W.packet_out(x, W.a_output(2), b"", buffer_id=b, in_port=3), ("buffer",)))
+  # boundary buffer ids: 0, the first id past n_buffers, the largest id that is not NO_BUFFER
+  for b_id in (0, 5, 0xfffffffe):
+    a(("packet-out-buffer-%x" % b_id, lambda x, b=b_id: W.packet_out(x, W.a_output(2), b"", buffer_id=b, in_port=3), ("buffer", b_id)))
+  a(("flow-add-buffer-0",) + flow_req(W.OFPFC_ADD, "in1", 2, buf="zero"))
   a(("packet-out-bad-action", lambda x: W.packet_out(x, W.a_raw(0x55), FRAME, in_port=1), ("error", W.OFPET_BAD_ACTION, W.OFPBAC_BAD_TYPE)))
   # header-only request types with a body attached: the length does not fit the type
   a(("barrier-with-body", lambda x: W.msg(W.BARRIER_REQUEST, x, b"\0\0\0\0"), ("error", W.OFPET_BAD_REQUEST, W.OFPBRC_BAD_LEN)))
@@ -123,8 +201,14 @@ class Model (object):
   """What a controller can infer about the switch from the requests it sent and the answers it saw.
   A value of None (tx, lookups, matched) or vague=True (flow table) means "the specification does not say what the
   switch did"; clauses that depend on such a value are not evaluated until the value is known again."""
-  def __init__ (self):
+  def __init__ (self, base=None):
     self.miss_send_len = 128; self.flags = 0
+    # ports: the description a pristine twin of the switch gives of itself (see _baseline); config bits as changed by the
+    # port-mods of the history (pknown = mask of bits whose value is determined); state as last announced in a port-status
+    self.base = base or {}
+    self.pcfg = dict((p, d["config"]) for p, d in self.base.get("ports", {}).items())
+    self.pstate = dict((p, d["state"]) for p, d in self.base.get("ports", {}).items())
+    self.pknown = dict((p, 0xffffffff) for p in self.pcfg)
     self.flows = {}             # "in1"/"in2"/"in3" -> port its single output action names
     self.vague = False          # table contents not determined (a flow-mod was answered with a buffer error)
     self.tx = {1: 0, 2: 0, 3: 0, 4: 0}
@@ -140,13 +224,62 @@ class Model (object):
     elif name == "set-config-0": self.miss_send_len, self.flags = 0, 0
     elif name == "set-config-max": self.miss_send_len, self.flags = 0xffff, 1
     elif name == "packet-out": self.sent(2)
+    elif name == "packet-out-flood": self.fan_out(flood=True)
+    elif name == "packet-out-all": self.fan_out(flood=False)
     elif name == "packet-out-table-1": self.lookup("in1")
     elif name == "packet-out-table-3": self.lookup("in3")
 
+  def pbits (self, port, bits):
+    """Value of the config bits `bits` of a port, None if one of them is not determined."""
+    if port not in self.pcfg or (self.pknown[port] & bits) != bits: return None
+    return self.pcfg[port] & bits
+
   def sent (self, port):
-    if self.tx is not None: self.tx[port] += 1
+    """A packet is output to a physical port: transmitted (and counted) unless the port is down or does not forward."""
+    if self.tx is None: return
+    blocked = self.pbits(port, W.OFPPC_PORT_DOWN | W.OFPPC_NO_FWD)
+    if blocked is None: self.tx = None
+    elif blocked: pass
+    elif self.pstate.get(port, 0) & W.OFPPS_LINK_DOWN: self.tx = None       # link announced down on a port configured up
+    else: self.tx[port] += 1
+
+  def fan_out (self, flood):
+    """packet-out to OFPP_FLOOD / OFPP_ALL with in_port NONE: every port, FLOOD without the NO_FLOOD ones."""
+    for port in PORTS:
+      if flood:
+        nf = self.pbits(port, W.OFPPC_NO_FLOOD)
+        if nf is None: self.tx = None
+        if nf is None or nf: continue
+      self.sent(port)
+
+  def port_step (self, desc):
+    """Expected answer to a port-mod and its effect: returns (expectation, effect(replies))."""
+    _, port, hw, config, mask = desc
+    PMF = W.OFPET_PORT_MOD_FAILED
+    nothing = lambda replies: None
+    # a refused port-mod ("request failed") leaves the port as it was
+    if port not in PORTS: return ("error", PMF, W.OFPPMFC_BAD_PORT), nothing
+    if hw != "own":
+      def unanswered (replies):
+        # not refused (already reported): what became of the port is then not judged on top of that
+        if not replies and port in self.pknown: self.pknown[port] &= ~mask & 0xffffffff
+      return ("error", PMF, W.OFPPMFC_BAD_HW_ADDR), unanswered
+    hard = mask & PC_HARD; soft = mask & ~PC_HARD & 0xffffffff
+    def eff (replies):
+      if port not in self.pcfg: return
+      if replies:         # refused (acceptable only for soft bits): nothing in the mask is determined any more
+        self.pknown[port] &= ~mask & 0xffffffff
+      else:
+        self.pcfg[port] = (self.pcfg[port] & ~hard) | (config & hard)
+        self.pknown[port] = (self.pknown[port] | hard) & ~soft & 0xffffffff
+    return (("maybe", PMF) if soft else ("none",)), eff
 
   def lookup (self, key):
+    # a packet-out to OFPP_TABLE names an in_port; whether a port that does not receive (NO_RECV) or is down still
+    # submits such a packet to the table is not specified
+    if key.startswith("in") and self.pbits(int(key[2:]), W.OFPPC_NO_RECV | W.OFPPC_PORT_DOWN) != 0:
+      self.lookups = None; self.matched = None; self.tx = None
+      return
     if self.lookups is not None: self.lookups += 1
     if self.vague:
       self.matched = None; self.tx = None
@@ -236,13 +369,26 @@ class Model (object):
     return ("none",), eff
 
 
-def check_history (names, reqs, rep, stack_factory, batch=False, raws=None):
+def xids_for (n, scheme=None):
+  if scheme == "edge": return [EDGE_XIDS[i % len(EDGE_XIDS)] for i in range(n)]
+  return [0x51000000 + i for i in range(n)]
+
+
+def norm_stream (stream):
+  """The reply stream with the xids of asynchronous messages (port-status: taken from a process-wide counter by pox, not
+  specified by OpenFlow) blanked, so that streams of different runs can be compared."""
+  if not stream: return stream
+  msgs, rest = W.split(stream)
+  return b"".join(m[:4] + b"\0\0\0\0" + m[8:] if m[1] == W.PORT_STATUS else m for m in msgs) + rest
+
+
+def check_history (names, reqs, rep, stack_factory, batch=False, raws=None, xids=None):
   """Run one history; returns list of (key, what)."""
   st = stack_factory()
-  model = Model()
+  model = Model(_baseline())
   bad = []
   outputs = []
-  xids = [0x51000000 + i for i in range(len(names))]
+  xids = xids_for(len(names), xids)
   if raws is None: raws = [reqs[n][0](x) for n, x in zip(names, xids)]
   else: raws = list(raws)
   if batch == "split":
@@ -252,15 +398,15 @@ def check_history (names, reqs, rep, stack_factory, batch=False, raws=None):
         k = 4 if len(raw) <= 12 else len(raw) // 2
         st.feed(raw[:k]); st.feed(raw[k:])
     except Exception as e:
-      return [("%s:%s:escaped-exception" % (PID, names[-1]), "exception escaped the switch's read loop: %s: %s" % (type(e).__name__, e))], None
-    return [], st.drain()
+      return [("%s:%s:escaped-exception" % (PID, keyname(names[-1])), "exception escaped the switch's read loop: %s: %s" % (type(e).__name__, e))], None
+    return [], norm_stream(st.drain())
   if batch:
     try:
       st.feed(b"".join(raws))
     except Exception as e:
-      return [("%s:%s:escaped-exception" % (PID, names[-1]), "exception escaped the switch's read loop: %s: %s" % (type(e).__name__, e))], None
+      return [("%s:%s:escaped-exception" % (PID, keyname(names[-1])), "exception escaped the switch's read loop: %s: %s" % (type(e).__name__, e))], None
     stream = st.drain()
-    return [], stream
+    return [], norm_stream(stream)
   total = b""
   BR = W.OFPET_BAD_REQUEST
   check_history.refused = False
@@ -268,8 +414,10 @@ def check_history (names, reqs, rep, stack_factory, batch=False, raws=None):
     exp = reqs[n][1]
     post = lambda replies, n=n: model.apply(n)
     if exp[0] == "buffer":
-      b_id = model.last_buf or 1
-      raw = raws[i] = reqs[n][0](x, b_id)
+      if len(exp) > 1: b_id = exp[1]              # a fixed (boundary) id
+      else:
+        b_id = model.last_buf or 1
+        raw = raws[i] = reqs[n][0](x, b_id)
       bs = model.buffer_state(b_id)
       post = lambda replies: None
       if bs == "unknown": exp = ("error", BR, W.OFPBRC_BUFFER_UNKNOWN)
@@ -282,7 +430,11 @@ def check_history (names, reqs, rep, stack_factory, batch=False, raws=None):
       b_id = model.last_buf or 1
       if exp[5] == "last": raw = raws[i] = reqs[n][0](x, b_id)
       elif exp[5] == "bad": b_id = BAD_BUFFER
+      elif exp[5] == "zero": b_id = 0
       exp, post = model.flow_step(exp, b_id)
+    elif exp[0] == "portmod":
+      exp, post = model.port_step(exp)
+    n = keyname(n)          # from here on the name is only used in keys and texts
     try:
       st.feed(raw)
     except Exception as e:
@@ -300,6 +452,8 @@ def check_history (names, reqs, rep, stack_factory, batch=False, raws=None):
       if d["type"] == W.PACKET_IN and d.get("buffer_id", W.NO_BUFFER) != W.NO_BUFFER:
         model.issued.add(d["buffer_id"]); model.used.discard(d["buffer_id"]); model.limbo.discard(d["buffer_id"])
         model.last_buf = d["buffer_id"]
+      elif d["type"] == W.PORT_STATUS and d["desc"]["port_no"] in model.pstate:
+        model.pstate[d["desc"]["port_no"]] = d["desc"]["state"]          # the switch announces a port's new state
     if st.worker.closed or st.worker._shutdown_send:
       bad.append(("%s:%s:connection-dropped" % (PID, n), "switch closed the connection after %s" % n)); break
     kind = exp[0]
@@ -352,7 +506,7 @@ def check_history (names, reqs, rep, stack_factory, batch=False, raws=None):
           bad.append(("%s:%s:error-data" % (PID, n), "error data is not (at least the first 64 bytes of) the failed request"))
     post(replies)
   check_history.last_raws = raws
-  return bad, total
+  return bad, norm_stream(total)
 
 
 def check_body (n, r, raw, model, st):
@@ -363,6 +517,28 @@ def check_body (n, r, raw, model, st):
   elif n == "features":
     if r["dpid"] != 1 or sorted(p["port_no"] for p in r["ports"]) != [1, 2, 3, 4] or r["n_tables"] != 1:
       b("features-data", "features reply does not describe the switch (dpid %s ports %s)" % (r["dpid"], [p["port_no"] for p in r["ports"]]))
+    elif model.base:
+      # the switch as a whole and every port: what does not depend on the history is what a pristine twin reports
+      if r["n_buffers"] != 4 or any(r[f] != model.base[f] for f in ("capabilities", "actions", "n_buffers")):
+        b("features-data:switch-desc", "features reply n_buffers/capabilities/actions %r differ from the switch's own first description %r"
+          % ([r[f] for f in ("n_buffers", "capabilities", "actions")], [model.base[f] for f in ("n_buffers", "capabilities", "actions")]))
+      for p in r["ports"]:
+        no = p["port_no"]; first = model.base["ports"][no]
+        fixed = ("hw_addr", "name", "curr", "advertised", "supported", "peer")
+        if any(p[f] != first[f] for f in fixed):
+          b("features-data:port-desc", "port %d is described as %r, the switch first described it as %r"
+            % (no, [p[f] for f in fixed], [first[f] for f in fixed]))
+        # config: the bits every accepted port-mod set or cleared, the rest as it was (refused port-mods change nothing)
+        wrong = (p["config"] ^ model.pcfg[no]) & model.pknown[no]
+        for bn, bit in PC_BITS + (("undefined-bits", 0xffffffff & ~PC_DEFINED),):
+          if wrong & bit:
+            b("features-data:port-config:%s" % bn, "port %d config %#x, the port-mods of the history leave it at %#x (bits judged: %#x)"
+              % (no, p["config"], model.pcfg[no], model.pknown[no]))
+        if not wrong:
+          model.pcfg[no] = p["config"]; model.pknown[no] = 0xffffffff          # bits not judged so far are now observed
+        # state: what the switch last announced in a port-status for this port (its first description if it never did)
+        if p["state"] != model.pstate[no]:
+          b("features-data:port-state", "port %d state %#x, the switch last announced %#x" % (no, p["state"], model.pstate[no]))
   elif n == "get-config":
     if (r["miss_send_len"], r["flags"]) != (model.miss_send_len, model.flags):
       b("config-data", "get-config reply %r does not reflect the last set-config %r" % ((r["miss_send_len"], r["flags"]), (model.miss_send_len, model.flags)))
@@ -404,6 +580,25 @@ def check_body (n, r, raw, model, st):
   return bad
 
 
+_BASE = []
+
+def _baseline ():
+  """What a pristine twin of the switch under test says about itself in its first features reply: the part of the
+  description that OpenFlow leaves to the switch (initial port config/state, names, addresses, capabilities)."""
+  if not _BASE:
+    base = {}
+    try:
+      st = _stack(); st.feed(W.features_request(1))
+      ds = [W.decode(m) for m in W.split(st.drain())[0]]
+      ds = [d for d in ds if d["type"] == W.FEATURES_REPLY]
+      if ds and sorted(p["port_no"] for p in ds[0]["ports"]) == list(PORTS):
+        base = dict(ds[0]); base["ports"] = dict((p["port_no"], p) for p in ds[0]["ports"])
+    except Exception:
+      base = {}           # the history that asks for the features meets the same failure and reports it
+    _BASE.append(base)
+  return _BASE[0]
+
+
 def _stack ():
   from mc.env import SwitchStack, VClock
   # table capacity 2, three distinct flows in the alphabet: re-adding an installed flow happens at capacity, a third
@@ -411,9 +606,16 @@ def _stack ():
   return SwitchStack(dpid=1, ports=4, max_buffers=4, clock=VClock(), max_entries=CAPACITY)
 
 
-def _one (names, reqs, rep):
-  bad, stream = check_history(names, reqs, rep, _stack)
+def _one (names, reqs, rep, xids=None):
+  bad, stream = check_history(names, reqs, rep, _stack, xids=xids)
   rep.evaluations += 1
+  if xids is not None:
+    # boundary xids: only the message-by-message run (the differentials do not depend on the xid values)
+    rep.outcome((names, xids, stream, tuple(k for k, _ in bad)))
+    for k, what in bad:
+      rep.violation(k + ":xids-" + xids if k.endswith(":wrong-xid") else k, what, dict(history=list(names), xids=xids))
+    rep.state_count += 1
+    return
   refused = check_history.refused
   if not bad and len(names) > 1:
     # differential: the same bytes in one read must give the same reply stream
@@ -421,14 +623,14 @@ def _one (names, reqs, rep):
     rep.evaluations += 1
     if bad2: bad = bad2
     elif stream2 != stream:
-      bad = [("%s:%s:segmentation-changes-replies" % (PID, names[-1]), "replies differ when the requests arrive in one read")]
+      bad = [("%s:%s:segmentation-changes-replies" % (PID, keyname(names[-1])), "replies differ when the requests arrive in one read")]
     elif refused or any(reqs[n][1][0] in ("error", "answer") for n in names):
       # histories with a refused request also with every message split over two reads
       bad3, stream3 = check_history(names, reqs, rep, _stack, batch="split", raws=check_history.last_raws)
       rep.evaluations += 1
       if bad3: bad = bad3
       elif stream3 != stream:
-        bad = [("%s:%s:segmentation-changes-replies:split" % (PID, names[-1]), "replies differ when every request arrives split over two reads")]
+        bad = [("%s:%s:segmentation-changes-replies:split" % (PID, keyname(names[-1])), "replies differ when every request arrives split over two reads")]
   rep.outcome((names, stream, tuple(k for k, _ in bad)))
   for k, what in bad:
     rep.violation(k, what, dict(history=list(names)))
@@ -441,13 +643,16 @@ def _worker (histories):
   from mc.env import boot
   boot()
   R = requests()
-  reqs = dict((n, (f, e)) for n, f, e in R)
+  reqs = Reqs((n, (f, e)) for n, f, e in R)
   rep = Report(PID, "model_checking")
   rep.state_count = 0
   for names in histories:
     if names and names[0] == "*":
       # a prefix standing for all its one-request extensions (keeps the work list of the thorough tier small)
-      for n, f, e in R: _one(tuple(names[1:]) + (n,), reqs, rep)
+      for n, f, e in R:
+        if n not in PAIRED: _one(tuple(names[1:]) + (n,), reqs, rep)
+    elif names and names[0] == "#edge":
+      _one(tuple(names[1:]), reqs, rep, xids="edge")
     else:
       _one(names, reqs, rep)
   return rep
@@ -489,14 +694,62 @@ BUFFER_FAMILY = ("packet-out-table-1", "packet-out-table-3", "packet-out-control
                  "flow-modify-bad-buffer", "stats-port-all", "stats-flow")
 
 
+# Requests added for the port-mod / boundary-value classes: enumerated in all pairs with every request, in the long
+# histories and in their own families below, but neither in the deepest full product nor in the flow family.
+PAIRED = ("port-mod-2-set-PORT_DOWN", "port-mod-2-clear-PORT_DOWN", "port-mod-2-set-NO_FWD", "port-mod-2-clear-NO_FWD",
+          "port-mod-2-set-NO_FLOOD", "port-mod-2-clear-NO_FLOOD", "port-mod-1-set-NO_RECV", "port-mod-1-clear-NO_RECV",
+          "port-mod-1-set-PORT_DOWN", "port-mod-1-clear-PORT_DOWN", "port-mod-1-clear-all", "port-mod-2-zero-hw",
+          "port-mod-2-other-hw", "packet-out-flood", "packet-out-all", "packet-out-buffer-0", "packet-out-buffer-5",
+          "packet-out-buffer-fffffffe", "flow-add-buffer-0")
+
+# Port family: port-mods that set / clear the bits with a visible effect (accepted and refused ones), the requests whose
+# outcome depends on port configuration, and the read-backs (features reply, port and table counters, barrier).
+PORT_FAMILY = PAIRED[:13] + ("port-mod", "port-mod-absent", "features", "barrier", "stats-port-all", "stats-table", "packet-out",
+                             "packet-out-flood", "packet-out-all", "packet-out-table-1", "flow-add")
+
+PM_TAIL = ("features", "packet-out-flood", "packet-out-all", "packet-out", "stats-port-all")
+PM_ABSENT = (99, 0, 5, 0xff00, 0xfffe, 0xffff)          # no such port: arbitrary, 0, first past the last, OFPP_MAX, LOCAL, NONE
+
+
+def pm_lattice (cfg):
+  """Names of the port-mod lattice: port_no x hw_addr kind x (config, mask)."""
+  extras = [(0x80, 0x80), (0, 0x80), (0x80000000, 0x80000000), (0xffffffff, 0xffffffff), (0, 0xffffffff), (PC_DEFINED, 0)]
+  bits = [b for _, b in PC_BITS]
+  few = [(b, b) for b in bits] + [(0, b) for b in bits] + [(PC_DEFINED, PC_DEFINED), (0, PC_DEFINED)] + extras
+  if cfg.quick:         # every subset of the defined bits as mask, all of them set / all of them cleared
+    full = [(m, m) for m in range(1, 128)] + [(0, m) for m in range(1, 128)] + extras
+  else:                 # every mask with every config inside the mask
+    full = [(c, m) for m in range(1, 128) for c in range(128) if c & ~m == 0] + extras
+  out = []
+  for port in (1, 2):
+    out += [pm_name(port, "own", c, m) for c, m in full]
+    out += [pm_name(port, hw, c, m) for hw in HW_KINDS[1:] for c, m in few]
+  for port in PM_ABSENT:
+    out += [pm_name(port, hw, c, m) for hw in ("own", "other", "zero") for c, m in few]
+  return out
+
+
+def pm_histories (cfg):
+  """Every port-mod of the lattice in three frames: on the fresh switch; after a features request and followed by a
+  barrier; on a port with every config bit set and a features request in between.  Each frame ends with the read-backs."""
+  hs = []
+  for n in pm_lattice(cfg):
+    port = int(n.split("-")[1])
+    allset = pm_name(port if port in PORTS else 1, "own", PC_DEFINED, PC_DEFINED)
+    hs.append((n,) + PM_TAIL)
+    hs.append(("features", n, "barrier") + PM_TAIL)
+    hs.append((allset, "features", n) + PM_TAIL)
+  return hs
+
+
 def flow_family (R):
-  return tuple(n for n, f, e in R if e[0] == "flow") + FLOW_FAMILY_EXTRA
+  return tuple(n for n, f, e in R if e[0] == "flow" and n not in PAIRED) + FLOW_FAMILY_EXTRA
 
 
 def histories (cfg, R):
   names = [n for n, f, e in R]
   depth = 3                                   # deepest full product (quick and thorough)
-  main = [n for n in names if n not in EXTENDED]
+  main = [n for n in names if n not in EXTENDED and n not in PAIRED]
   ff = flow_family(R)
   seen = set()
   hs = []
@@ -516,45 +769,80 @@ def histories (cfg, R):
   for d in range(ff_depth + 1, bf_depth + 1):
     add(itertools.product(BUFFER_FAMILY, repeat=d))
   n_bf = len(hs) - n_full - n_ff
-  active = [n for n in names if n not in INERT]
+  pf_depth = cfg.pick(3, 4)
+  for d in range(depth, pf_depth + 1):
+    add(itertools.product(PORT_FAMILY, repeat=d))
+  n_pf = len(hs) - n_full - n_ff - n_bf
+  pm = pm_histories(cfg)
+  add(pm)
+  active = [n for n in names if n not in INERT and n not in PAIRED]
   deeper = []
   if not cfg.quick:
     # one request deeper than the full product: the first `depth` requests among the state-affecting ones
     deeper = [("*",) + p for p in itertools.product(active, repeat=depth)]
   longs = long_history(names)
-  return hs + deeper + longs, dict(depth=depth, main=len(main), full=n_full, active=len(active), deeper=len(deeper) * len(names),
-                                   ff=len(ff), ff_depth=ff_depth, n_ff=n_ff, bf_depth=bf_depth, n_bf=n_bf, longs=len(longs))
+  # boundary xids: every history of <= depth-1 requests and the long ones once more
+  edge = [("#edge",) + h for d in range(1, depth) for h in itertools.product(names, repeat=d)] + [("#edge",) + h for h in longs]
+  return hs + deeper + longs + edge, dict(depth=depth, main=len(main), full=n_full, active=len(active),
+                                          deeper=len(deeper) * (len(names) - len(PAIRED)),
+                                          ff=len(ff), ff_depth=ff_depth, n_ff=n_ff, bf_depth=bf_depth, n_bf=n_bf, longs=len(longs),
+                                          pf_depth=pf_depth, n_pf=n_pf, n_pm=len(pm), pm_lattice=len(pm) // 3, edge=len(edge))
 
 
 def run (cfg):
   rep = Report(PID, "model_checking")
   R = requests()
   names = [n for n, f, e in R]
-  assert set(INERT) | set(EXTENDED) | set(BUFFER_FAMILY) | set(FLOW_FAMILY_EXTRA) <= set(names)
+  assert set(INERT) | set(EXTENDED) | set(BUFFER_FAMILY) | set(FLOW_FAMILY_EXTRA) | set(PAIRED) | set(PORT_FAMILY) | set(PM_TAIL) <= set(names)
   hs, info = histories(cfg, R)
   rep.rule = ("all sequences of <=%d requests over %d controller-to-switch messages (distinct xids) and all sequences of %d over the %d of them "
-              "that are not flow-mod variants of an included plain form%s; "
+              "that are not flow-mod / port-mod / buffer-id variants of an included plain form%s; "
               "all sequences of <=%d requests over the %d-request flow family (every flow-mod of the alphabet: 5 commands + an unknown one x matches "
               "in1/in2/in3/all x {no flag, EMERG, CHECK_OVERLAP} x buffer_id {none, never issued, most recent packet-in (valid / already used)} on a "
               "table of capacity %d; the requests that hand out, name or release a packet buffer; flow/aggregate/table/port statistics, barrier); "
               "all sequences of <=%d requests over the %d-request buffer family; the expected answer of every flow-mod is computed from the history; "
+              "all sequences of <=%d requests over the %d-request port family (port-mods setting / clearing PORT_DOWN, NO_FWD, NO_FLOOD, NO_RECV, refused "
+              "ones, packet-outs to a port / FLOOD / ALL / TABLE, features, port and table statistics, barrier); a port-mod lattice of %d port-mods "
+              "(ports 1, 2 with the port's own hw_addr x %s; the same ports x hw_addr {all-zero, broadcast, another port's, own with the lowest / highest bit "
+              "flipped} and port numbers %s x hw_addr {what the port would have, port 1's, all-zero} x {each defined config bit set / cleared, all, none, "
+              "undefined bits 7 / 31 / all 32}), each in 3 frames (fresh switch | after a features request, then barrier | on a port with all bits set, "
+              "features request in between) followed by features, packet-out FLOOD / ALL / port 2, port statistics; the expected answer of every port-mod "
+              "and the port config afterwards are computed from the history and compared in EVERY features reply (config bits, link state as last "
+              "announced by port-status, rest of the port and switch description as first reported by a pristine twin); "
               "each history is sent as spec-encoded bytes message-by-message, again as one read and (histories with a refused request) with every "
-              "message split over two reads; plus %d histories of 40 covering every ordered pair; "
+              "message split over two reads; plus %d histories of 40 covering every ordered pair; all histories of <=%d requests and the histories of 40 "
+              "once more with boundary xids (0, 0xffffffff, 0x80000000, 0x7fffffff, 1, repeating); "
               "distinct = distinct (history, reply byte stream, verdict)"
               % (info["depth"] - 1, len(names), info["depth"], info["main"],
                  "" if cfg.quick else ", and all sequences of %d requests whose first %d are among the %d state-affecting ones"
                  % (info["depth"] + 1, info["depth"], info["active"]),
-                 info["ff_depth"], info["ff"], CAPACITY, info["bf_depth"], len(BUFFER_FAMILY), info["longs"]))
+                 info["ff_depth"], info["ff"], CAPACITY, info["bf_depth"], len(BUFFER_FAMILY),
+                 info["pf_depth"], len(PORT_FAMILY), info["pm_lattice"],
+                 "every non-empty mask over the 7 defined config bits with all / none of its bits set" if cfg.quick else
+                 "every non-empty mask over the 7 defined config bits with every config inside the mask",
+                 "/".join("%#x" % p for p in PM_ABSENT), info["longs"], info["depth"] - 1))
   rep.bound = dict(depth=info["depth"], alphabet=len(names), deepest_product_alphabet=info["main"], product_histories=info["full"],
                    deeper_layer_histories=info["deeper"], flow_family_depth=info["ff_depth"], flow_family_alphabet=info["ff"],
                    flow_family_histories=info["n_ff"], buffer_family_depth=info["bf_depth"], buffer_family_alphabet=len(BUFFER_FAMILY),
-                   buffer_family_histories=info["n_bf"], table_capacity=CAPACITY, buffers=4)
+                   buffer_family_histories=info["n_bf"], table_capacity=CAPACITY, buffers=4,
+                   port_family_depth=info["pf_depth"], port_family_alphabet=len(PORT_FAMILY), port_family_histories=info["n_pf"],
+                   port_mod_lattice=info["pm_lattice"], port_mod_lattice_histories=info["n_pm"], boundary_xid_histories=info["edge"])
   rep.assumptions = ["error codes asserted only where OpenFlow 1.0 names one", "HELLO/PACKET_IN/PORT_STATUS/FLOW_REMOVED are asynchronous, not replies",
                      "a flow-mod answered with a buffer error (BUFFER_UNKNOWN/BUFFER_EMPTY) leaves the table contents undetermined until the next delete-all: "
                      "OpenFlow 1.0 does not say whether the flow-mod is still carried out",
                      "buffer_id is not meaningful for OFPFC_DELETE*: silence and a BAD_REQUEST error are both accepted",
                      "a flow-mod refused for two reasons (refused command and bad buffer_id) may be answered with either error or one of each",
-                     "whether a refused flow-mod still releases a valid buffer, and whether a buffered packet handed to a flow-mod counts as a table lookup, is not judged"]
+                     "whether a refused flow-mod still releases a valid buffer, and whether a buffered packet handed to a flow-mod counts as a table lookup, is not judged",
+                     "a port-mod refused with OFPET_PORT_MOD_FAILED (\"port mod request failed\") leaves the port configuration as it was; a port-mod for an existing "
+                     "port is refused with BAD_HW_ADDR for EVERY hw_addr other than the port's (all-zero and broadcast included), for a port number the "
+                     "switch does not have with BAD_PORT whatever the hw_addr",
+                     "OFPPC_NO_STP (the switch has no 802.1D support) and undefined config bits: a port-mod naming them may be carried out, ignored or refused "
+                     "with PORT_MOD_FAILED; the value of those bits is judged again only after a features reply has shown it",
+                     "a packet output to a port with OFPPC_PORT_DOWN or OFPPC_NO_FWD is not transmitted and not counted in tx_packets; OFPP_FLOOD leaves out "
+                     "OFPPC_NO_FLOOD ports; a packet-out to OFPP_TABLE whose in_port is down or has OFPPC_NO_RECV leaves the table/port counters unjudged",
+                     "the initial port configuration / state / names / features and the switch capabilities are the switch's choice: taken from the first "
+                     "features reply of a pristine twin of the switch under test",
+                     "the contents of asynchronous port-status messages are not judged, only used as the announced link state"]
   for r in pmap(_worker, split(hs, cfg.workers * 4), cfg.workers, seed=cfg.seed):
     rep.merge(r)
   return rep
@@ -563,10 +851,10 @@ def run (cfg):
 def replay (cfg, data):
   from mc.env import boot
   boot()
-  reqs = dict((n, (f, e)) for n, f, e in requests())
+  reqs = Reqs((n, (f, e)) for n, f, e in requests())
   rep = Report(PID, "model_checking")
-  bad, stream = check_history(tuple(data["history"]), reqs, rep, _stack)
-  if not bad:
+  bad, stream = check_history(tuple(data["history"]), reqs, rep, _stack, xids=data.get("xids"))
+  if not bad and not data.get("xids"):
     bad, s2 = check_history(tuple(data["history"]), reqs, rep, _stack, batch=True, raws=check_history.last_raws)
     if not bad and s2 != stream: bad = [("segmentation", "replies differ in one read")]
     if not bad:
